@@ -21,6 +21,9 @@ type subscribeTransaction struct {
 	topicID uint16
 	// The topicID was registered because of this subscription.
 	newTopicID bool
+	// Not empty if the topicID belongs to a not yet acknowledged registration
+	// of this topic initiated by the gateway.
+	pendingTopic string
 }
 
 func newSubscribeTransaction(ctx context.Context, h *handler1, msgID uint16, topicID uint16, newTopicID bool) *subscribeTransaction {
@@ -57,6 +60,13 @@ func (t *subscribeTransaction) Suback(mqSuback *mqPkts.SubackPacket) error {
 	if mqSuback.ReturnCodes[0] <= 2 {
 		returnCode = snPkts1.RC_ACCEPTED
 		qos = mqSuback.ReturnCodes[0]
+		if t.pendingTopic != "" {
+			// The client learns the TopicID from this SUBACK, whatever it
+			// answers to the gateway's REGISTER.
+			t.handler.registrationMutex.Lock()
+			t.handler.registeredTopics.Store(t.topicID, t.pendingTopic)
+			t.handler.registrationMutex.Unlock()
+		}
 		t.Success()
 	} else {
 		returnCode = snPkts1.RC_NOT_SUPPORTED
